@@ -783,6 +783,9 @@ def gen_recipe(rng, extra_p=0.5):
     }
 
 
+_ENV_CLASSES: dict = {}
+
+
 def build_env(recipe, loader=None, delims=None):
     """Create a fresh Environment (an ad-hoc subclass carrying flags/limits)."""
     import liquid
@@ -794,7 +797,11 @@ def build_env(recipe, loader=None, delims=None):
     attrs["suppress_blank_control_flow_blocks"] = recipe["suppress_blank"]
     for k, v in recipe["limits"].items():
         attrs[k] = v
-    cls = type("SimEnvironment", (Environment,), attrs)
+    # environments with the same flags / limits share ONE class, as an application's would
+    key = tuple(sorted(attrs.items()))
+    cls = _ENV_CLASSES.get(key)
+    if cls is None:
+        cls = _ENV_CLASSES[key] = type("SimEnvironment", (Environment,), attrs)
     d = delims or DEFAULT_DELIMS
     kw = {}
     if recipe["template_comments"]:
